@@ -196,6 +196,15 @@ def apply_replay(ctx):
 
 
 def run(ctx):
+    import time as _time
+    _t0 = _time.time()
+    try:
+        run1(ctx)
+    finally:
+        ctx._run_s = _time.time() - _t0
+
+
+def run1(ctx):
     apply_replay(ctx)
     rebuild_if_make_flaked(ctx)
     obs = []
@@ -278,7 +287,10 @@ def run(ctx):
                            "gate_probe": [{"rounds": o.get("probe_rounds"), "goroutines_released_together": o.get("probe_workers"),
                                            "rounds_with_two_paths_for_one_file": o.get("probe_disagreements")}
                                           for o in obs if o.get("probe_rounds") is not None]},
-        "samples": [summarize(o) for o in (obs[:1] + [x for x in obs if x["kind"] == "conc"][:1] + [x for x in obs if x["kind"] == "mapconc"][:1])],
+        "samples": [o for o in obs if o["kind"] == "enc"][10:13] + [o for o in obs if o["kind"] == "enc" and not o["ok"]][:2]
+        + [{"kind": "info", "rows": (o["rows"] or [])[:4]} for o in obs if o["kind"] == "info"]
+        + [{"kind": o["kind"], "h": (o.get("h") or [])[:4], "c": (o.get("c") or [])[:4]} for o in obs if o["kind"] in ("conc", "mapconc")][:2]
+        + [{"kind": "modes", "t": o["t"], "rows(p=0o4755..0o4757)": o["rows"][0o4755:0o4760]} for o in obs if o["kind"] == "modes"][:1],
     })
 
 
@@ -310,9 +322,16 @@ def race_runs(ctx):
 
 
 def search(ctx):
-    """Obligation or correspondence broken and no observed failure: thorough budget, then repeated concurrent runs."""
-    if ctx.thorough:
-        return
-    ctx.tier = "thorough"
-    ctx.thorough = True
-    run(ctx)
+    """An obligation or the correspondence broke and nothing failing was observed: generate more inputs (further seeds,
+    same tier) while ctx.search_budget_s allows; the duration of the run just made is the estimate for one more."""
+    import time
+    budget = getattr(ctx, "search_budget_s", 150)
+    t0 = time.time()
+    one = max(15.0, getattr(ctx, "_run_s", 60.0))
+    seed0, k = ctx.seed, 0
+    while not ctx.violations and k < 4 and time.time() - t0 + one <= budget:
+        k += 1
+        ctx.seed = seed0 + 1000 * k
+        ctx.note("search: further inputs, seed %d" % ctx.seed)
+        run(ctx)
+    ctx.seed = seed0
